@@ -99,7 +99,9 @@ def rule_fidelity(ctx, p, cfg, rid, prefix="config::runtime::", floor=30, with_b
                     direct = [1 for b, i, st in f.assigns() if st["lhs"]["l"] == 1 and any(isinstance(e, dict) and e.get("f") == tgt and e.get("adt") == adt for e in st["lhs"]["p"])]
                     ins = [c for c in f.calls() if c.callee in ("alloc::vec::Vec::<T, A>::insert", "alloc::vec::Vec::<T, A>::append") and _root_field(deep_strip(c.arg(0))) != tgt]
                     frontins = [c for c in f.calls() if c.callee == "alloc::vec::Vec::<T, A>::insert"]
-                    okw = okw and not direct and not ins and not frontins
+                    # ... and nothing else edits the list on the way (dedup, sort, retain, truncate ..)
+                    edits = [c.callee for c in f.calls() if c.callee not in MUTATORS and str((c.t.get("arg_tys") or [""])[0]).startswith(("&mut alloc::vec::Vec<", "&mut ["))]
+                    okw = okw and not direct and not ins and not frontins and not edits
                 r.require(okw and touched == {tgt}, "setter:%s" % short, fn=f, detail="stores its argument in `%s` on every path and touches nothing else" % tgt,
                           fail_detail="%s: fields written %s, argument stored in `%s`: %s" % (short, sorted(touched), tgt, okw))
         r.floor("accessor-functions", n, floor)
